@@ -649,7 +649,7 @@ def run_task(task):
 
 
 
-FH_OPS = ['fa', 'fb', 'bad', 'gd', 'gn', 'cf2']
+FH_OPS = ['fa', 'fb', 'bad', 'gd', 'gn', 'cf2', 'ob_f', 'ob_p']
 
 
 def _function_history(task, rec):
@@ -657,7 +657,9 @@ def _function_history(task, rec):
     {call the function at point a, at point b, call it with a vector that is too long (refused), evaluate the formula with
     a dictionary of values and the numbering in place, evaluate it without values}.  Every accepted call must report value,
     gradient, Hessian and BHHH of the right shape and equal to the reference at the point it was asked for (for the
-    evaluation without values: at one of the points supplied so far or the declared values)."""
+    evaluation without values: at one of the points supplied so far or the declared values).  Two more operations number
+    ANOTHER formula for good - one that shares this formula's parameter objects under other ranks - through create_function
+    (ob_f) or prepare (ob_p): the first function must keep answering for its own formula."""
     import numpy as np
     from biogeme.exceptions import BiogemeError
     from vf.engine import make_db
@@ -706,7 +708,7 @@ def _function_history(task, rec):
         return False
 
     for hist in itertools.product(FH_OPS, repeat=3):
-        if not any(o in ('bad', 'gd', 'gn', 'cf2') for o in hist) or hist[-1] == 'bad':
+        if not any(o in ('bad', 'gd', 'gn', 'cf2', 'ob_f', 'ob_p') for o in hist) or hist[-1] in ('bad', 'ob_f', 'ob_p'):
             continue
         try:
             expr = R.Builder(G.betas_spec()).build(term)
@@ -719,6 +721,7 @@ def _function_history(task, rec):
         supplied = ['init']
         key = ('function_history', task['pool'], hist)
         ok = True
+        fh_foreign = False
         cur_db = db      # the table of the numbering the formula carries now (a call of a function re-installs that function's own)
         for step, op in enumerate(hist):
             try:
@@ -726,6 +729,7 @@ def _function_history(task, rec):
                     p = op[1]
                     res = fct(np.array([pts[p][nm] for nm in names], dtype=float))
                     cur_db = db
+                    fh_foreign = False
                     supplied.append(p)
                     ok = judge(hist, step, 'function-call', res.function_output if hasattr(res, 'function_output') else res, [p]) and ok
                 elif op == 'bad':
@@ -744,6 +748,27 @@ def _function_history(task, rec):
                     supplied.append('b')
                     ok = judge(hist, step, 'second-function-on-a-table-with-other-column-order',
                                res.function_output if hasattr(res, 'function_output') else res, ['b']) and ok
+                elif op in ('ob_f', 'ob_p'):
+                    # ANOTHER formula that shares the parameter objects of this one (and brings one more, whose name sorts before
+                    # all of them, so that every shared parameter has another rank there) is numbered for good: a function is made
+                    # from it and called (ob_f), or it is prepared (ob_p).  The first function stays in use afterwards; the formula
+                    # itself is then evaluated with the numbering left in place only through its own function (cur_db unchanged:
+                    # 'gd' / 'gn' after this step are given the numbering back by a call of the function first - not enumerated).
+                    import biogeme.expressions as ex
+                    from biogeme.expressions.elementary_types import TypeOfElementaryExpression as T
+                    shared_b = expr.dict_of_elementary_expression(T.FREE_BETA)
+                    other = ex.Beta('A0_first', 0.25, None, None, 0) * ex.Variable(G.COLUMNS[0])
+                    for nm in sorted(shared_b):
+                        other = other + shared_b[nm] * 0.5
+                    if op == 'ob_f':
+                        f_o = other.create_function(database=db, number_of_draws=10, gradient=True, hessian=False, bhhh=False)
+                        onames = list(other.id_manager.free_betas.names)
+                        f_o(np.array([0.1 * (k + 1) for k in range(len(onames))], dtype=float))
+                    else:
+                        other.prepare(database=db, number_of_draws=10)
+                    fh_foreign = True
+                elif op in ('gd', 'gn') and fh_foreign:
+                    rec.count('function_history_formula_evaluation_after_a_foreign_numbering_not_enumerated')
                 elif op == 'gd':
                     res = expr.get_value_and_derivatives(betas={nm: pts['c'][nm] for nm in names}, database=cur_db, gradient=True, hessian=True,
                                                          bhhh=True, aggregation=True, prepare_ids=False)
